@@ -12,8 +12,8 @@ hprop.install(globals(), hprop.HistoryProperty(
     nontrivial=lambda f: "dispatched_vehicle_redirected" in f and bool(f & {"ran_empty_while_dispatched", "request_redispatched"}),
     rule=("stateful histories over generated worlds with near-empty vehicles, re-dispatch, interruption by every instruction type, "
           "double dispatch, cancellations and requests injected co-simulation style through simulation_state_ops (also at simulation time 0, before the first step); built-in dispatcher alone in a third of the cases; after every step and single-instruction "
-          "probe every waiting request that records a vehicle is checked against that vehicle's activity, and (built-in generators "
-          "only, no scripted instruction ever queued) no request has two vehicles travelling to it. non-trivial = a dispatched vehicle "
+          "probe every waiting request that records a vehicle is checked against that vehicle's activity, and no request that only the built-in dispatcher ever "
+          "dispatched (no scripted controller named it, no client re-offered it) has two vehicles travelling to it - judged on the state after the step and on the dispatcher's recorded input and output, also while a clumsy controller sends refusable instructions to vehicles under way (meddle rule). non-trivial = a dispatched vehicle "
           "was redirected AND (a vehicle ran empty while dispatched OR a re-offered request was dispatched again); distinct = sha1(world, op log)"),
     assumptions=hprop.COMMON_ASSUMPTIONS,
     quick=(16, 100, 40), thorough=(16, 1000, 60), probes=True,
